@@ -98,6 +98,19 @@ CHECKS['C18'] = dict(
          'glob and WcMatch on a real tree with Latin-1 names return the encoded paths in the same order.',
     note='Identical regex text is taken to have identical meaning on ASCII subjects in str and bytes mode.')
 
+CHECKS['C05'] = dict(
+    level='exploration', engine='FSX', design='6 C05',
+    technique='explicit-state exploration of file-system states (all trees reachable by <= K create-operations, '
+              'de-duplicated); in every state the real glob() on the materialised tree vs a reference walker over '
+              'the state model and vs Bash 5.2',
+    text='All trees with <= 2 create-operations (quick; + a seed-chosen eighth of the 3-op layer and deeper seed '
+         'states; thorough: all <= 3 + an eighth of 4) over names a b .h (files, dirs, symlinks to files/dirs/ancestors/'
+         'nowhere, cycles) x 781/1769 segment-menu patterns x 10 flag sets; a second layer with names a A b for '
+         'IGNORECASE. Reference = independent segment-by-segment walk of the model (three-valued on hidden names); '
+         'Bash pathname expansion decides the don\'t-cares on the shared fragment.',
+    note='Real syscalls on a scratch directory; the model resolver is cross-checked against the kernel in every state; '
+         'Bash comparison skipped for duplicate-separator patterns and for ** on trees with symlinked directories.')
+
 PENDING = {}
 
 
